@@ -165,6 +165,7 @@ def make_pipeline(ctx, prop, kind, mtype, keys, num_anneals, sched, init, in_ord
             steps, cur = [], None
             for ev in evs:
                 if ev[0] == 'pload': cur = []; steps.append(cur)
+                elif ev[0] == 'ret': cur = None          # end of this anneal's sweeps: what follows is not part of a step
                 elif cur is not None: cur.append(ev)
             nsw = len(sc)
             obs.append(Ob('one Metropolis step per (anneal, sweep, position)', len(steps) == num_anneals * nsw * N, info={'steps': len(steps), 'want': num_anneals * nsw * N}))
